@@ -56,6 +56,10 @@ def cells(tier, seed):
         for nt in threads:
             for warm in (False, True):
                 out.append({'table': name, 'threads': nt, 'warm': warm})
+    # histories over ALL tables: the cache fills up to its 14 entries in a seeded order, every table is
+    # loaded again afterwards; every loader return is judged by the contracts
+    for k in range(6 if tier == 'quick' else 24):
+        out.append({'table': '*', 'threads': [1, 1, 2, 4][k % 4], 'warm': False, 'order': seed * 100 + k})
     return out
 
 
@@ -209,10 +213,86 @@ def disk_table(name):
         return {k: np.array(f[k]) for k in f.files}
 
 
+def all_tables_cell(cell, seed):
+    import random
+    import pytorch_wavelets.dtcwt.coeffs as coeffs
+    cache = coeffs.COEFF_CACHE
+    cache.clear()
+    if hasattr(cache, 'digests'):
+        cache.digests.clear()
+    del _OBS[:]
+    names = table_names()
+    first = {}
+    lock = threading.Lock()
+    mism = []
+
+    def loader_for(n):
+        if n in BIORT_NAMES:
+            return 'biort', (lambda: coeffs.biort(n))
+        if n in QSHIFT_NAMES:
+            return 'qshift', (lambda: coeffs.qshift(n))
+        return 'level1', (lambda: coeffs.level1(n, compact=False))
+
+    def work(tid):
+        rnd = random.Random(cell['order'] * 31 + tid)
+        for rep in range(3):
+            order = list(names)
+            rnd.shuffle(order)
+            for n in order:
+                ln, fn = loader_for(n)
+                try:
+                    r = [np.array(a) for a in fn()]
+                except Exception as e:
+                    with lock:
+                        mism.append('%s(%s) raised %r' % (ln, n, e))
+                    continue
+                with lock:
+                    f = first.setdefault(n, r)
+                    if len(f) != len(r) or not all(np.array_equal(a, b) for a, b in zip(f, r)):
+                        mism.append('%s(%s): load %d with %d tables cached differs from the first load' % (ln, n, rep, len(cache)))
+    if cell['threads'] == 1:
+        work(0)
+    else:
+        ths = [threading.Thread(target=work, args=(i,)) for i in range(cell['threads'])]
+        for t in ths:
+            t.start()
+        for t in ths:
+            t.join()
+    out = []
+    base = {'cell': cell}
+    for o in list(_OBS):
+        case = dict(base, table=o['table'], loader=o['loader'], check=o['check'])
+        mon = 'M-TABLE.' + o['check']
+        if o['ok'] is None:
+            out.append(res(INCONCLUSIVE, case, mon, o['detail']))
+        elif o['ok']:
+            out.append(res(HELD, case, mon, ratio=o['ratio']))
+        else:
+            kf = KF_QL1 if (o['loader'] == 'qshift' and o['table'] in DUALTREE_L1) else None
+            out.append(res(VIOLATED, case, mon, o['detail'], ratio=o['ratio'], kf_key=kf))
+    case = dict(base, check='idempotent-with-full-cache', tables_cached=len(cache))
+    out.append(res(HELD, case, 'M-TABLE.idem', '%d tables cached, %d loads' % (len(cache), 3 * len(names) * cell['threads']), ratio=0.0)
+               if not mism else res(VIOLATED, case, 'M-TABLE.idem', mism[0]))
+    for n in names:
+        disk = disk_table(n)
+        okd = n in cache and all(k in disk and np.array_equal(disk[k], v) for k, v in cache[n].items())
+        case = dict(base, table=n, check='disk-with-full-cache')
+        out.append(res(HELD, case, 'M-TABLE.disk', ratio=0.0) if okd else
+                   res(VIOLATED, case, 'M-TABLE.disk', 'cached table differs from the table on disk'))
+    from .. import attach
+    for v in attach.drain():
+        out.append(res(VIOLATED, dict(base, check='cache'), v['monitor'], v['detail']))
+    if hasattr(cache, 'events'):
+        del cache.events[:]
+    return out
+
+
 def run_cell(cell, seed):
     import torch
     import pytorch_wavelets as pw
     import pytorch_wavelets.dtcwt.coeffs as coeffs
+    if cell['table'] == '*':
+        return all_tables_cell(cell, seed)
     name, nt = cell['table'], cell['threads']
     out = []
     cache = coeffs.COEFF_CACHE
@@ -325,7 +405,7 @@ def run_cell(cell, seed):
 
 
 def extra_cov(results, meta):
-    tabs = set(r['case']['cell']['table'] for r in results if r['case'].get('cell'))
+    tabs = set(r['case']['cell']['table'] for r in results if r['case'].get('cell')) - {'*'}
     return {'tables_covered': sorted(tabs), 'loader_returns_judged': sum(
         1 for r in results if r['monitor'] in ('M-TABLE.ref', 'M-TABLE.identity')),
         'thread_counts': sorted(set(r['case']['cell']['threads'] for r in results if r['case'].get('cell')))}
